@@ -278,10 +278,10 @@ theorem inner_top {ρ : Type} (b : Build) (g : Gap) (hg : b.joinGap = some g)
 /-! ### 5. one pass of the outer loop = the model's `amStep` -/
 
 /-- the variables of the outer loop: the arena, the namer object, the references passed to `self.add_scaffold`.  The ORDER in which the
-    translator carries them (alphabetical: `added_lo`, `heap_lo`, `self_scaffold_namer`) is named here, in `OSt` / `ost`, and nowhere else -/
-abbrev OSt := List Nat × List PyRt.Leftover × PyRt.SrcNamer
+    translator carries them (by the text of their type, then by name: `heap_lo`, `added_lo`, `self_scaffold_namer`) is named here, in `OSt` / `ost`, and nowhere else -/
+abbrev OSt := List PyRt.Leftover × List Nat × PyRt.SrcNamer
 /-- the state of the outer loop with arena `h`, namer `s`, references `a` -/
-abbrev ost (h : List PyRt.Leftover) (s : PyRt.SrcNamer) (a : List Nat) : OSt := (a, h, s)
+abbrev ost (h : List PyRt.Leftover) (s : PyRt.SrcNamer) (a : List Nat) : OSt := (h, a, s)
 
 /-- loop body of the model's `addMissing` (verbatim) -/
 def amStep (b : Build) (sc : Scaffold) : R Build := do
